@@ -27,27 +27,27 @@ theorem shape_of_ok (v : Val) (h : v.ok = true) (hn : v.isNull = false) : shapeI
   cases v with
   | null t => simp [Val.isNull] at hn
   | num t n =>
-    simp only [Val.ok, Bool.and_eq_true] at h
+    simp only [Val.ok] at h
     cases hp : t.primId? with
     | none => simp [hp] at h
-    | some id => simp [hp] at h; simp [shapeIdx, tyShape, Val.ty, hp, h.2.1]
+    | some id => simp [hp] at h; simp [shapeIdx, tyShape, Val.ty, hp, h.1]
   | bool t x =>
-    simp only [Val.ok, Bool.and_eq_true, beq_iff_eq] at h
-    simp [shapeIdx, tyShape, Val.ty, h.2, isNumberId_iff, h1]
+    simp only [Val.ok, beq_iff_eq] at h
+    simp [shapeIdx, tyShape, Val.ty, h, isNumberId_iff, h1]
   | bytes t x =>
-    simp only [Val.ok, Bool.and_eq_true, beq_iff_eq] at h
-    simp [shapeIdx, tyShape, Val.ty, h.2, isNumberId_iff, h1, h2]
+    simp only [Val.ok, beq_iff_eq] at h
+    simp [shapeIdx, tyShape, Val.ty, h, isNumberId_iff, h1, h2]
   | string t x =>
-    simp only [Val.ok, Bool.and_eq_true, beq_iff_eq] at h
-    simp [shapeIdx, tyShape, Val.ty, h.2, isNumberId_iff, h1, h2, h3]
+    simp only [Val.ok, beq_iff_eq] at h
+    simp [shapeIdx, tyShape, Val.ty, h, isNumberId_iff, h1, h2, h3]
   | ip t x =>
     simp only [Val.ok, Bool.and_eq_true, beq_iff_eq] at h
-    simp [shapeIdx, tyShape, Val.ty, h.1.2, isNumberId_iff, h1, h2, h3, h4]
+    simp [shapeIdx, tyShape, Val.ty, h.1, isNumberId_iff, h1, h2, h3, h4]
   | typ t x =>
-    simp only [Val.ok, Bool.and_eq_true, beq_iff_eq] at h
-    simp [shapeIdx, tyShape, Val.ty, h.1.2, isNumberId_iff, h1, h2, h3, h4, h5]
+    simp only [Val.ok, beq_iff_eq] at h
+    simp [shapeIdx, tyShape, Val.ty, h, isNumberId_iff, h1, h2, h3, h4, h5]
   | seq t es =>
-    simp only [Val.ok, Bool.and_eq_true] at h
+    simp only [Val.ok] at h
     cases hi : t.inner? with
     | none => simp [hi] at h
     | some e =>
@@ -59,7 +59,7 @@ theorem shape_of_ok (v : Val) (h : v.ok = true) (hn : v.isNull = false) : shapeI
   | raw t x =>
     simp only [Val.ok, Bool.and_eq_true] at h
     cases hp : t.primId? with
-    | none => simp [shapeIdx, tyShape, Val.ty, hp, Option.isNone_iff_eq_none.mp h.1.2]
+    | none => simp [shapeIdx, tyShape, Val.ty, hp, Option.isNone_iff_eq_none.mp h.1]
     | some id =>
       simp [hp, specialPrim] at h
       simp [shapeIdx, tyShape, Val.ty, hp, h.2.1, h.2.2]
@@ -98,18 +98,15 @@ theorem num_of_ok {v : Val} (h : v.ok = true) (hk : vk v = .num) : ∃ t n, v = 
   exact ⟨_, _, rfl⟩
 
 theorem num_ok_isNumber {t : Ty} {n : Num} (h : (Val.num t n).ok = true) : t.isNumber = true := by
-  simp only [Val.ok, Bool.and_eq_true] at h
+  simp only [Val.ok] at h
   cases hp : t.primId? with
   | none => simp [hp] at h
-  | some id => simp [hp] at h; simp [Ty.isNumber, hp, h.2.1]
+  | some id => simp [hp] at h; simp [Ty.isNumber, hp, h.1]
 
 theorem bool_STr (x y z : Bool) :
     STr (if x = y then .eq else if x then .gt else .lt) (if y = z then .eq else if y then .gt else .lt)
       (if x = z then Ordering.eq else if x then .gt else .lt) := by
   cases x <;> cases y <;> cases z <;> decide
-
-theorem typ_nnn {t x : Ty} (h : (Val.typ t x).ok = true) : x.nnn = true := by
-  simp only [Val.ok, Bool.and_eq_true] at h; exact h.2
 
 /-- the laws for one triple of well-formed values, given the laws for the elements of
     arrays/sets (`hseq`) -/
@@ -120,7 +117,7 @@ theorem cmpVal_STr_of (nm : Bool) (a b c : Val) (oka : a.ok = true) (okb : b.ok 
       STr (cmpVals nm xs ys) (cmpVals nm ys zs) (cmpVals nm xs zs)) :
     STr (cmpVal nm a b) (cmpVal nm b c) (cmpVal nm a c) := by
   rw [cmpVal_classified nm a b, cmpVal_classified nm b c, cmpVal_classified nm a c]
-  have ka := vk_ok a oka; have kb := vk_ok b okb; have kc := vk_ok c okc
+  have ka := vk_ok a; have kb := vk_ok b; have kc := vk_ok c
   have hmem : ∀ k, k ∈ [vk a, vk b, vk c] → VKok k := by
     intro k hk
     simp only [List.mem_cons, List.mem_nil_iff, or_false] at hk
@@ -165,7 +162,7 @@ theorem cmpVal_STr_of (nm : Bool) (a b c : Val) (oka : a.ok = true) (okb : b.ok 
     · simp only [cmpSameOf, cmpLeaf]
       exact STr.then (STr_compare_nat _ _ _) (fun _ _ => cmpBytes_STr _ _ _)
     · simp only [cmpSameOf, cmpLeaf]
-      exact cmpTy_STr _ _ _ (typ_nnn oka) (typ_nnn okb) (typ_nnn okc)
+      exact cmpTy_STr _ _ _
     · simp only [cmpSameOf]
       simp only [Val.ty] at ua ub uc
       exact hseq _ _ _ _ _ _ rfl rfl rfl (ua.trans ub.symm) (ub.trans uc.symm)
@@ -188,7 +185,7 @@ theorem pairOK_same_ty (x y : Val) (okx : x.ok = true) (oky : y.ok = true) (h : 
   rename_i t n t' n'
   simp only [Val.ty] at h
   subst h
-  simp only [Val.ok, Bool.and_eq_true] at okx oky
+  simp only [Val.ok] at okx oky
   cases hp : t.primId? with
   | none => simp [hp] at okx
   | some id =>
@@ -201,10 +198,10 @@ theorem inner_of_under {s t : Ty} (h : s.under = t.under) : s.inner? = t.inner? 
   unfold Ty.inner?; rw [h]
 
 theorem seq_ok {t : Ty} {xs : Vals} (h : (Val.seq t xs).ok = true) : ∃ e, t.inner? = some e ∧ xs.okAll e = true := by
-  simp only [Val.ok, Bool.and_eq_true] at h
+  simp only [Val.ok] at h
   cases hi : t.inner? with
   | none => simp [hi] at h
-  | some e => exact ⟨e, rfl, by simpa [hi] using h.2⟩
+  | some e => exact ⟨e, rfl, by simpa [hi] using h⟩
 
 mutual
 theorem cmpVal_STr (nm : Bool) : (a b c : Val) → a.ok = true → b.ok = true → c.ok = true →
